@@ -1,14 +1,24 @@
 import DoitModel.Proofs.C08Dyn5
 import DoitModel.Proofs.C08Conf6
 import DoitModel.Proofs.RunPar
+import DoitModel.Proofs.C08LiftStart
 /-! # C08 (I10) with calc_dep, step 3c: the confluence invariant `InvDen` holds in every reachable state of the serial and of the
     parallel system (any graph) -/
 namespace DoitModel.Run.Dyn
 
-/-- node-local soundness of `bad_deps`/`ignored_deps` + agreement of statuses, `go` marks and reports with `DenOf` -/
+/-- node-local soundness of `bad_deps`/`ignored_deps` + agreement of statuses, `go` marks and reports with `DenOf`;
+    `dcf`: what a processed calc_dep that failed during its execution returned is in the dynamic dependency lists;
+    `sb`: a failed task whose derived outcome is a failure during execution has a start event -/
 structure InvDen (inp : RunInput) (s : Sys) : Prop where
   nodeS : InvN inp s
   den : InvE inp s
+  dcf : AllDCF inp (SF inp) s
+  sb : StartB (SF inp) s
+
+/-- for a failed task: it has a start event iff its derived outcome is a failure during its execution -/
+theorem InvDen.started_iff {inp : RunInput} {s : Sys} (h : InvDen inp s) (h3 : Inv3 inp s) (c : Name)
+    (hf : stOf s c = .fail) : started s c = true ↔ SF inp c :=
+  ⟨startF_of_inv h3 h.den c hf, h.sb c hf⟩
 
 theorem InvDen.fin {inp : RunInput} {s : Sys} (h : InvDen inp s) (n : Name) (hf : (stOf s n).finished = true) :
     ∃ d, DenOf inp n d ∧ d.rs = stOf s n := h.den.fin n hf
@@ -20,46 +30,64 @@ theorem InvDen.rep {inp : RunInput} {s : Sys} (h : InvDen inp s) (n : Name) :
    fun a => h.den.rep _ a n _ (by simp [Ev.den?]), fun k a => h.den.rep _ a n _ (by simp [Ev.den?])⟩
 
 theorem init_invDen (inp : RunInput) : InvDen inp (init inp) :=
-  ⟨fun n nd hn => by simp [init] at hn, init_invE inp⟩
+  ⟨fun n nd hn => by simp [init] at hn, init_invE inp, init_allDCF inp _, init_startB inp⟩
 
 /-- nothing in the nodes changes; events without report / `go` are added -/
 theorem InvDen.outer {inp : RunInput} {s s' : Sys} (h : InvDen inp s) (e1 : s'.nodes = s.nodes) (new : List Ev)
     (hev : s'.events = new ++ s.events) (hp : ∀ e ∈ new, Ev.plainD e) : InvDen inp s' :=
-  ⟨invN_congr h.nodeS e1, h.den.frame (stOf_congr e1) new hev hp⟩
+  ⟨invN_congr h.nodeS e1, h.den.frame (stOf_congr e1) new hev hp, allDCF_congr h.dcf e1,
+   StartB.frame h.sb (stOf_congr e1) new hev⟩
 
 theorem InvDen.same {inp : RunInput} {s s' : Sys} (h : InvDen inp s) (e1 : s'.nodes = s.nodes)
     (e2 : s'.events = s.events) : InvDen inp s' :=
   h.outer e1 [] (by simpa using e2) (by simp)
 
-theorem dtick_invDen {inp : RunInput} [NoFailDeliver inp] {s s' : Sys} {perm : List Name} (h : InvDen inp s)
+theorem dtick_invDen {inp : RunInput} {s s' : Sys} {perm : List Name} (h3 : Inv3 inp s) (h : InvDen inp s)
     (hs : dtick inp s perm = some s') : InvDen inp s' :=
-  ⟨dtick_invN h.nodeS hs, h.den.frame (dtick_stOf hs) [] (by simpa using (dtick_outer hs).1) (by simp)⟩
+  ⟨dtick_invN (startF_of_inv h3 h.den) h.nodeS hs,
+   h.den.frame (dtick_stOf hs) [] (by simpa using (dtick_outer hs).1) (by simp),
+   dtick_allDCF h.dcf h.sb hs, StartB.frame h.sb (dtick_stOf hs) [] (by simpa using (dtick_outer hs).1)⟩
 
-theorem send_invDen {inp : RunInput} [NoFailDeliver inp] {s s0 : Sys} {node : Option Name} {perm : List Name} (h2 : Inv2 inp s)
+theorem send_invDen {inp : RunInput} {s s0 : Sys} {node : Option Name} {perm : List Name} (h2 : Inv2 inp s)
+    (h3 : Inv3 inp s)
     (h : InvDen inp s) (hnode : sentBack s = node) (hs : send inp s node perm = some s0) : InvDen inp s0 := by
   obtain ⟨_, hst⟩ := send_inv1 h2.inv1 (fun p hp => h2.sb p (by rw [hnode, hp])) hs
-  exact ⟨send_invN h.nodeS hs, h.den.frame hst [] (by simpa using (send_outer hs).1.1) (by simp)⟩
+  exact ⟨send_invN (startF_of_inv h3 h.den) h.nodeS hs, h.den.frame hst [] (by simpa using (send_outer hs).1.1) (by simp),
+    send_allDCF h.dcf h.sb hs, StartB.frame h.sb hst [] (by simpa using (send_outer hs).1.1)⟩
+
+/-- at a select point the completeness invariant gives `DelivF` -/
+theorem InvDen.delivF {inp : RunInput} {s : Sys} {n : Name} {nd : Node} (h : InvDen inp s) (h1 : Inv1 inp s)
+    (hn : s.nodes n = some nd) (hl : nd.pc.inLoop = false) : DelivF inp s nd :=
+  DelivF.ofDCF h.den h1 h.dcf hn hl
 
 theorem select_invDen {inp : RunInput} {s : Sys} {n : Name} {nd : Node} (hG : InvG inp s) (h2 : Inv2 inp s) (h : InvDen inp s)
     (haw : awaiting s) (hsusp : s.susp = some (.node n)) (hn : s.nodes n = some nd)
     (hd : selDecision inp n nd ≠ .assertFail) : InvDen inp (applySel inp s n nd (selDecision inp n nd)) := by
-  refine ⟨?_, invE_select h.den h.nodeS h2 hG.dc haw hsusp hn hd⟩
-  exact invN_congr (invN_status (selStatus (selDecision inp n nd)) h.nodeS hn (selDecision_unfinished hd)
-    (selStatus_ne_none hd)) (applySel_nodes inp s n nd _ hd)
+  have hl : nd.pc.inLoop = false := by
+    obtain ⟨nd', hn', hpc⟩ := h2.inv1.sp n hsusp
+    rw [hn] at hn'; cases hn'
+    rcases hpc with e | e <;> (rw [e]; rfl)
+  have hE' := invE_select h.den h.nodeS h2 hG.dc haw hsusp hn (h.delivF h2.inv1 hn hl) hd
+  refine ⟨?_, hE', ?_, startB_applySel h.sb hd hE'⟩
+  · exact invN_congr (invN_status (selStatus (selDecision inp n nd)) h.nodeS hn (selDecision_unfinished hd)
+      (selStatus_ne_none hd)) (applySel_nodes inp s n nd _ hd)
+  · exact allDCF_status h.dcf h2.inv1 hn (selDecision_unfinished hd) _ (applySel_nodes inp s n nd _ hd)
 
-theorem result_invDen {inp : RunInput} {s : Sys} {n : Name} {nd : Node} (h : InvDen inp s)
-    (hn : s.nodes n = some nd) (hrun : nd.status = .run) (hgo : ∃ deps, Ev.go n deps ∈ s.events) :
+theorem result_invDen {inp : RunInput} {s : Sys} {n : Name} {nd : Node} (h : InvDen inp s) (h1 : Inv1 inp s)
+    (hn : s.nodes n = some nd) (hrun : nd.status = .run) (hgo : ∃ deps, Ev.go n deps ∈ s.events)
+    (hstart : cStart s n ≥ 1) :
     InvDen inp (processResult inp s n nd) := by
-  refine ⟨?_, invE_result h.den hgo⟩
-  exact invN_congr (invN_status (resStatus (inp.outcome n)) h.nodeS hn (by rw [hrun]; rfl) (resStatus_ne_none _))
-    (processResult_nodes inp s n nd)
+  refine ⟨?_, invE_result h.den hgo, ?_, startB_result h.sb hstart⟩
+  · exact invN_congr (invN_status (resStatus (inp.outcome n)) h.nodeS hn (by rw [hrun]; rfl) (resStatus_ne_none _))
+      (processResult_nodes inp s n nd)
+  · exact allDCF_status h.dcf h1 hn (by rw [hrun]; rfl) _ (processResult_nodes inp s n nd)
 
 theorem finishRun_invDen {inp : RunInput} {s : Sys} (h : InvDen inp s) : InvDen inp (finishRun s) :=
   h.outer rfl (Ev.complete :: s.tdown.map Ev.teardown) (by simp [finishRun]) (teardown_plainD _)
 
 /-! ### the serial runner -/
 
-theorem serialStep_invDen {inp : RunInput} [NoFailDeliver inp] {s s' : Sys} {perm : List Name} (hG : InvG inp s) (h2 : Inv2 inp s)
+theorem serialStep_invDen {inp : RunInput} {s s' : Sys} {perm : List Name} (hG : InvG inp s) (h2 : Inv2 inp s)
     (h3 : Inv3 inp s) (h : InvDen inp s) (hs : serialStep inp s perm = some s') : InvDen inp s' := by
   unfold serialStep at hs
   cases hr : s.rpc with
@@ -71,12 +99,12 @@ theorem serialStep_invDen {inp : RunInput} [NoFailDeliver inp] {s s' : Sys} {per
       | none => simp only [hsd] at hs; cases hs
       | some s0 =>
         simp only [hsd] at hs; cases hs
-        exact (send_invDen h2 h (by simp [sentBack, hr]) hsd).same rfl rfl
+        exact (send_invDen h2 h3 h (by simp [sentBack, hr]) hsd).same rfl rfl
   | sWait =>
     simp only [hr] at hs
     have haw : awaiting s := Or.inl hr
     cases hsu : s.susp with
-    | none => simp only [hsu] at hs; exact dtick_invDen h hs
+    | none => simp only [hsu] at hs; exact dtick_invDen h3 h hs
     | some o =>
       simp only [hsu] at hs
       cases o with
@@ -118,8 +146,13 @@ theorem serialStep_invDen {inp : RunInput} [NoFailDeliver inp] {s s' : Sys} {per
         have := h3.j n; have := (h3.x3 n hr).1; omega
       have h1 : InvDen inp { s with rpc := .sExec n, events := Ev.fin n 0 :: s.events } :=
         h.outer rfl [Ev.fin n 0] rfl (fin_plainD n 0)
-      have h2' := result_invDen (s := { s with rpc := .sExec n, events := Ev.fin n 0 :: s.events }) h1 hn hrun
+      have h2' := result_invDen (s := { s with rpc := .sExec n, events := Ev.fin n 0 :: s.events }) h1
+        (h2.inv1.congr rfl rfl rfl rfl rfl) hn hrun
         (by obtain ⟨deps, hd⟩ := hgo; exact ⟨deps, by simp [hd]⟩)
+        (by have := (h3.x3 n hr).1
+            have e : cStart { s with rpc := .sExec n, events := Ev.fin n 0 :: s.events } n = cStart s n := by
+              simp [cStart, List.countP_cons, Ev.isStartOf]
+            omega)
       exact h2'.same rfl rfl
   | fin => simp only [hr] at hs; cases hs; exact finishRun_invDen h
   | gEntry a b => simp only [hr] at hs; cases hs
@@ -130,7 +163,7 @@ theorem serialStep_invDen {inp : RunInput} [NoFailDeliver inp] {s s' : Sys} {per
   | pJoin => simp only [hr] at hs; cases hs
   | halted => simp only [hr] at hs; cases hs
 
-theorem reach_invDen {inp : RunInput} [NoFailDeliver inp] {s : Sys} (h : Reach inp s) : InvDen inp s := by
+theorem reach_invDen {inp : RunInput} {s : Sys} (h : Reach inp s) : InvDen inp s := by
   induction h with
   | init => exact init_invDen inp
   | @next s0 s1 c hr hs ih =>
@@ -141,7 +174,7 @@ theorem reach_invDen {inp : RunInput} [NoFailDeliver inp] {s : Sys} (h : Reach i
 
 /-! ### the parallel runners -/
 
-theorem mainStep_invDen {inp : RunInput} [NoFailDeliver inp] {s s' : Sys} {perm : List Name} (hG : InvG inp s) (h2 : Inv2 inp s)
+theorem mainStep_invDen {inp : RunInput} {s s' : Sys} {perm : List Name} (hG : InvG inp s) (h2 : Inv2 inp s)
     (h3 : Inv3 inp s) (h : InvDen inp s) (hs : mainStep inp s perm = some s') : InvDen inp s' := by
   unfold mainStep at hs
   cases hr : s.rpc with
@@ -154,12 +187,12 @@ theorem mainStep_invDen {inp : RunInput} [NoFailDeliver inp] {s s' : Sys} {perm 
     | none => simp only [hsd] at hs; cases hs
     | some s0 =>
       simp only [hsd] at hs; cases hs
-      exact (send_invDen h2 h (by simp [sentBack, hr]) hsd).same rfl rfl
+      exact (send_invDen h2 h3 h (by simp [sentBack, hr]) hsd).same rfl rfl
   | gWait ret =>
     simp only [hr] at hs
     have haw : awaiting s := Or.inr ⟨ret, hr⟩
     cases hsu : s.susp with
-    | none => simp only [hsu] at hs; exact dtick_invDen h hs
+    | none => simp only [hsu] at hs; exact dtick_invDen h3 h hs
     | some o =>
       simp only [hsu] at hs
       cases o with
@@ -207,7 +240,8 @@ theorem mainStep_invDen {inp : RunInput} [NoFailDeliver inp] {s s' : Sys} {perm 
             apply go_of_cGo
             have := h3.j n; have := (h3.p0 n).2; omega
           have h1 : InvDen inp { s with rpc := .pTop, resQ := rest } := h.same rfl rfl
-          exact (result_invDen (s := { s with rpc := .pTop, resQ := rest }) h1 hn hrun hgo).same rfl rfl
+          exact (result_invDen (s := { s with rpc := .pTop, resQ := rest }) h1 (h2.inv1.congr rfl rfl rfl rfl rfl) hn
+            hrun hgo (by have := (h3.p0 n).2; show cStart s n ≥ 1; omega)).same rfl rfl
   | pJoin =>
     simp only [hr] at hs
     split at hs
@@ -242,7 +276,7 @@ theorem doneStep_invDen {inp : RunInput} {s s' : Sys} {w : Nat} (h : InvDen inp 
   | idle => simp only [hw] at hs; cases hs
   | exited => simp only [hw] at hs; cases hs
 
-theorem preach_invDen {inp : RunInput} [NoFailDeliver inp] {s : Sys} (h : PReach inp s) : InvDen inp s := by
+theorem preach_invDen {inp : RunInput} {s : Sys} (h : PReach inp s) : InvDen inp s := by
   induction h with
   | init => exact init_invDen inp
   | @next s0 s1 c hr hs ih =>
